@@ -431,7 +431,7 @@ BADLEN = [(el, n, W, where) for el in ('int', 'byte', 'bool', 'string') for W in
           for n in (-1, -2, -3, -4, -5, -7, -8, -9, -12, -16, -17, 'min', 'min+1', 'wrap1', 'wrap1+1', 'max')
           for where in ('local', 'callee')]
 N_BADLEN = len(BADLEN)
-N_FRAMEFIX = 636     # = len(STALE), asserted below
+N_FRAMEFIX = len(STALE)     # 636
 
 
 def badlen_case(k):
